@@ -62,13 +62,13 @@ def make_frame(c):
 
 
 def snap(fr):
-    return dict(fs=fr.fs.copy(), ts=fr.ts.copy(), shape=fr.shape, noise=(fr.noise_mean, fr.noise_std), meta=pickle.dumps(fr.metadata),
+    return dict(ts_ext=np.asarray(fr.ts_ext).copy(), fs=fr.fs.copy(), ts=fr.ts.copy(), shape=fr.shape, noise=(fr.noise_mean, fr.noise_std), meta=pickle.dumps(fr.metadata),
                 rng=pickle.dumps(fr.rng.bit_generator.state), df=fr.df, dt=fr.dt, fch1=fr.fch1, fmin=fr.fmin, fmax=fr.fmax, dtype=str(fr.data.dtype))
 
 
 def same_state(a, b):
     bad = []
-    for k in ("fs", "ts"):
+    for k in ("fs", "ts", "ts_ext"):
         if not np.array_equal(a[k], b[k]):
             bad.append(k)
     for k in ("shape", "noise", "meta", "rng", "df", "dt", "fch1", "fmin", "fmax"):
@@ -168,6 +168,13 @@ def run_case(c):
                 pass
         if not np.allclose(fr3.data, fr.data, rtol=0, atol=eps * scale):
             out["fails"].append(["order", "injecting the same signals in reverse order gives different data"])
+    # the extended time axis follows the frame's time axis also after injections (a cadence re-assigns ts around every injection)
+    keep = fr.ts
+    fr.ts = keep + 7.0 * fr.dt
+    ext = np.asarray(fr.ts_ext)
+    if ext.shape != (len(fr.ts) + 1,) or not np.array_equal(ext[:-1], fr.ts):
+        out["fails"].append(["state-changed", "after the injections ts_ext no longer follows the frame's time axis (a stale copy is kept)"])
+    fr.ts = keep
     out["fmin"] = float(fr.fmin).hex()
     out["prior"] = hexm(before_all)
     return out
